@@ -4,6 +4,7 @@ import Psa.Eval
 import Psa.RegistrySpec
 import Psa.AdmitIO
 import Psa.StdEval
+import Psa.Webhook
 import Psa.Generated.Tables
 /-! psa-driver: one JSON object per input line, one JSON object per output line. -/
 open Lean PSA PSA.IO
@@ -64,6 +65,10 @@ def handle (j : Json) : R Json := do
     let l ← level (← fld j "level")
     let v ← ver (← fld j "version")
     return Json.mkObj [("results", Json.arr ((stdEval l v p).map jresult).toArray)]
+  | "webhookClassify" =>
+    let st := Webhook.classify Generated.maxRequestSize (boolD j "empty") (← natOf (← fld j "size")) (strD j "contentType")
+      (boolD j "decodes") (boolD j "v1review") (boolD j "hasRequest")
+    return Json.mkObj [("status", Json.num (st : JsonNumber))]
   | "registry" =>
     let cs ← arrOf regCheck (fldD j "checks")
     let valid := validateChecks cs
